@@ -66,7 +66,7 @@ def gen_cases(tier, seed):
             c = int(p * 1024 ** k)
             for d in range(-64, 65):
                 vals.add(max(0, c + d))
-    nrand = 60000 if tier == "quick" else 1500000
+    nrand = 150000 if tier == "quick" else 2000000
     for _ in range(nrand):
         vals.add(int(2 ** rnd.uniform(0, 70)))
     vals = sorted(vals)
